@@ -2111,7 +2111,7 @@ class NamespaceSet(MutableSet[_NSO], Generic[_NSO]):
                 objects_to_add.append(other_object)
         for attr_name, (backend, case_sensitive) in self._backend.items():
             for attr_name_other, (backend_other, case_sensitive_other) in other._backend.items():
-                if attr_name is attr_name_other:
+                if attr_name == attr_name_other:
                     for item in backend.values():
                         if not backend_other.get(self._get_attribute(item, attr_name, case_sensitive)):
                             # referable does not exist in the other NamespaceSet
